@@ -197,13 +197,48 @@ def runnable(t):
   return t.with_plugs(p=K['RealPlug'])
 
 
-def execute(t, with_b=False):
+DIAG_B = [False]
+
+
+def build_test(t):
+  """A Test around a runnable version of t, preceded by a phase whose diagnoser issues result B iff DIAG_B[0] (B switches
+  on X's conditional validator).  The SAME Test object is executed for every run of t in a history: a station executes
+  one Test again and again, and what a run leaves behind in it is what the property is about."""
   L = progs.lib()
-  nodes = [runnable(t)]
-  if with_b:
-    # an earlier phase produces diagnosis result B, which switches on X's conditional validator for this run only
-    nodes = [progs.make_phase('pre', {'ret': ['ok'], 'diag': ['B']}, progs.RunCtx())] + nodes
-  res, recs, test, terr = htf.run_test(nodes)
+  h, dl, R = L['htf'], L['dl'], L['R']
+
+  def pre_diag(phase_record):
+    return dl.Diagnosis(R.B, 'issued in this run') if DIAG_B[0] else None
+
+  def pre_body(test):
+    pass
+
+  pre_body.__name__ = 'pre'
+  pre = h.diagnose(dl.PhaseDiagnoser(R, name='pre_diag')(pre_diag))(h.PhaseOptions(name='pre')(pre_body))
+  test = h.Test(pre, runnable(t))
+  cap = htf.Capture()
+  test.add_output_callbacks(cap)
+  return test, cap
+
+
+def execute(t, with_b=False, cache=None):
+  key = snap(t)
+  if cache is None or key not in cache:
+    entry = build_test(t)
+    if cache is not None:
+      cache[key] = entry
+  else:
+    entry = cache[key]
+  test, cap = entry
+  del cap.records[:]
+  DIAG_B[0] = bool(with_b)
+  try:
+    res = test.execute()
+  except BaseException as e:  # pylint: disable=broad-except
+    res = e
+  finally:
+    DIAG_B[0] = False
+  recs = list(cap.records)
   if not recs:
     return ('no-record', type(res).__name__)
   rec = recs[0]
@@ -223,6 +258,7 @@ def run_history(hist):
   pool = [('X', base['X']), ('Y', base['Y'])]
   bad = []
   exec_results = {}
+  tests = {}
   for step, (name, src) in enumerate(hist):
     if src >= len(pool):
       return None      # not applicable
@@ -246,22 +282,28 @@ def run_history(hist):
       elif name == 'execute_ctorfail':
         # a run in which a plug constructor fails must not change what the next run of the same object produces
         changed_ok = set()
-        r1 = execute(target)
+        r1 = execute(target, False, tests)
         CTOR_FAIL[0] = True
         try:
-          rf = execute(target)
+          rf = execute(target, False, tests)
         finally:
           CTOR_FAIL[0] = False
-        r2 = execute(target)
+        r2 = execute(target, False, tests)
         if r1 != r2:
           bad.append(('run-depends-on-earlier-run', 'executing %s after a run whose plug constructor failed gave %r, before it %r'
                       % (label, r2, r1)))
       elif name in ('execute', 'execute_B'):
-        r1 = execute(target, name == 'execute_B')
-        r2 = execute(target, name == 'execute_B')
+        r1 = execute(target, name == 'execute_B', tests)
+        r2 = execute(target, name == 'execute_B', tests)
         changed_ok = set()
         if r1 != r2:
           bad.append(('rerun-differs', 'two consecutive executions of %s gave different records: %r vs %r' % (label, r1, r2)))
+        if name == 'execute':
+          # the same object run in a Test that has never been executed before: the well-used Test must agree with it
+          fresh = execute(target, False, None)
+          if fresh != r1:
+            bad.append(('run-depends-on-earlier-run', 'executing %s in the Test that earlier steps of the history already '
+                        'executed gave %r, in a fresh Test %r' % (label, r1, fresh)))
         prev = exec_results.get((src, name))
         exec_results[(src, name)] = r1
         plain_before = exec_results.get((src, 'execute'))
